@@ -43,8 +43,8 @@ const (
 	sigHoist     = "D-C12-incdec-written-to-outer-context"
 	sigJe        = "D-C12-eq-compiled-to-placeholder-je"
 	sigMultiRet  = "D-C12-multiple-returns"
-	sigFallDef   = "D-C12-fallthrough-into-default"
 	sigGoValue   = "D-C12-go-value-arg-empty-rom"
+	sigShLinks   = "D-C12-shared-links-map-order"
 	sigSemantics = "semantics-differ"
 )
 
@@ -220,6 +220,14 @@ func prop(c Case) pbt.Outcome {
 	base := runs[done[0]]
 	for _, i := range done[1:] {
 		if runs[i].Fingerprint() != base.Fingerprint() {
+			if c.Mpm && facts.Channels >= 2 && onlySharedLinksOrderDiffers(base, runs[i]) {
+				f := pbt.Failf(sigShLinks, "the bondmachine JSON differs between two runs of the compiler in the order of a processor's shared-object links (which is what numbers its channels ch0, ch1, …): %s vs %s\n--- source\n%s",
+					sharedLinks(base.Machine), sharedLinks(runs[i].Machine), c.Src)
+				if c.Strict {
+					return finish(pbt.Outcome{Fail: f})
+				}
+				return finish(pbt.Outcome{Excluded: sigShLinks})
+			}
 			return finish(pbt.Outcome{Fail: pbt.Failf(sigNondet, "compiler output differs between plan %d (GOMAXPROCS=%d sched=%q) and plan %d (GOMAXPROCS=%d sched=%q)\n--- source\n%s--- plan %d\n%s--- plan %d\n%s",
 				done[0], c.Plans[done[0]].GoMaxProcs, c.Plans[done[0]].Sched, i, c.Plans[i].GoMaxProcs, c.Plans[i].Sched, c.Src, done[0], base.Fingerprint(), i, runs[i].Fingerprint())})
 		}
@@ -352,8 +360,6 @@ func prop(c Case) pbt.Outcome {
 			switch {
 			case len(facts.HoistedIncDec) > 0:
 				return known(sigHoist, f)
-			case facts.FallDefault:
-				return known(sigFallDef, f)
 			case len(facts.MultiReturn) > 0:
 				return known(sigMultiRet, f)
 			case eqTrue > 0:
@@ -395,6 +401,40 @@ var Props = []*pbt.Entry{
 		genCase(GenOpts{Faithful: false}), prop),
 }
 
+func sharedLinks(js []byte) string {
+	var m map[string]json.RawMessage
+	if json.Unmarshal(js, &m) != nil {
+		return "?"
+	}
+	return string(m["Shared_links"])
+}
+
+// onlySharedLinksOrderDiffers: everything the two runs wrote is equal except the order inside the
+// per-processor lists of Shared_links.
+func onlySharedLinksOrderDiffers(a, b RunResult) bool {
+	norm := func(r RunResult) (string, bool) {
+		var m map[string]json.RawMessage
+		if json.Unmarshal(r.Machine, &m) != nil {
+			return "", false
+		}
+		var sl [][]int
+		if json.Unmarshal(m["Shared_links"], &sl) != nil {
+			return "", false
+		}
+		for _, l := range sl {
+			sort.Ints(l)
+		}
+		nb, _ := json.Marshal(sl)
+		m["Shared_links"] = nb
+		out, _ := json.Marshal(m)
+		r.Machine = out
+		return r.Fingerprint(), true
+	}
+	fa, ok1 := norm(a)
+	fb, ok2 := norm(b)
+	return ok1 && ok2 && fa == fb
+}
+
 func needTools(t *testing.T) {
 	if _, err := toolPath("bondgo"); err != nil {
 		t.Fatalf("C12 drives the real CLI: %v", err)
@@ -428,5 +468,239 @@ func TestShow(t *testing.T) {
 		c := rapid.Custom(genCase(o)).Example(i)
 		b, _ := json.Marshal(c.Plans)
 		fmt.Printf("===== rsize=%d mpm=%v plans=%s\n%s", c.Rsize, c.Mpm, b, c.Src)
+	}
+}
+
+// ---------------------------------------------------------------------------
+// known/ replay files: VERIF_C12_WRITE_KNOWN=<dir> go test -run TestWriteKnown
+
+const hdr = "package main\n\nimport (\n\t\"bondgo\"\n)\n\n"
+
+func manyPlans(n int) []Plan {
+	var ps []Plan
+	for i := 0; i < n; i++ {
+		ps = append(ps, Plan{GoMaxProcs: []int{1, 2, 4, 8}[i%4], Sched: schedPlans[(i+2)%len(schedPlans)]})
+	}
+	return ps
+}
+
+var knownCases = []struct {
+	file, entry, sig string
+	c                Case
+}{
+	{"D8-compile-hang", "compile_faithful", sigD8, Case{Rsize: 8, Plans: manyPlans(14), Src: hdr + `func main() {
+	var out0 bondgo.Output
+	var reg_a uint8
+	var reg_b uint8
+	out0 = bondgo.Make(bondgo.Output, 3)
+	reg_a = 1
+	reg_b = 2
+	for {
+		reg_a = reg_a + reg_b
+		reg_b++
+		bondgo.IOWrite(out0, reg_a)
+	}
+}
+`}},
+	{"eq-compiled-to-placeholder-je", "compile_faithful", sigJe, Case{Rsize: 8, Plans: manyPlans(3), Src: hdr + `func main() {
+	var out0 bondgo.Output
+	var reg_a uint8
+	var reg_b uint8
+	out0 = bondgo.Make(bondgo.Output, 1)
+	for {
+		if reg_a == 0 {
+			reg_b = 7
+		}
+		reg_a = reg_a + 1
+		bondgo.IOWrite(out0, reg_b)
+		bondgo.IOWrite(out0, reg_a+reg_b)
+	}
+}
+`}},
+	{"incdec-written-to-outer-context", "compile_faithful", sigHoist, Case{Rsize: 8, Plans: manyPlans(3), Src: hdr + `func main() {
+	var out0 bondgo.Output
+	var reg_a uint8
+	var reg_b uint8
+	out0 = bondgo.Make(bondgo.Output, 1)
+	for {
+		if false {
+			reg_a++
+		}
+		reg_b = reg_b + 2
+		bondgo.IOWrite(out0, reg_a)
+		bondgo.IOWrite(out0, reg_a+reg_b)
+	}
+}
+`}},
+	{"multiple-returns", "compile_faithful", sigMultiRet, Case{Rsize: 8, Plans: manyPlans(3), Src: hdr + `func f1(a0 uint8) uint8 {
+	if false {
+		return 9
+	}
+	return a0 + 1
+}
+
+func main() {
+	var out0 bondgo.Output
+	var reg_a uint8
+	var reg_b uint8
+	out0 = bondgo.Make(bondgo.Output, 1)
+	for {
+		reg_a = f1(reg_a)
+		reg_b = reg_b + 2
+		bondgo.IOWrite(out0, reg_a)
+		bondgo.IOWrite(out0, reg_a+reg_b)
+	}
+}
+`}},
+	{"go-value-arg-empty-rom", "compile_full", sigGoValue, Case{Rsize: 8, Mpm: true, Plans: manyPlans(3), Src: hdr + `func w1(k uint8) {
+	var outw bondgo.Output
+	var reg_p uint8
+	outw = bondgo.Make(bondgo.Output, 2)
+	reg_p = k
+	for {
+		reg_p++
+		bondgo.IOWrite(outw, reg_p)
+	}
+}
+
+func main() {
+	var out0 bondgo.Output
+	var reg_a uint8
+	var reg_b uint8
+	out0 = bondgo.Make(bondgo.Output, 1)
+	go w1(5)
+	for {
+		reg_a++
+		bondgo.IOWrite(out0, reg_a+reg_b)
+	}
+}
+`}},
+	{"shared-links-map-order", "compile_full", sigShLinks, Case{Rsize: 8, Mpm: true, Plans: manyPlans(12), Src: hdr + `func w1(c chan uint8) {
+	var reg_p uint8
+	for {
+		c <- reg_p
+		reg_p++
+	}
+}
+
+func w2(c chan uint8) {
+	var reg_q uint8
+	for {
+		c <- reg_q
+		reg_q++
+	}
+}
+
+func main() {
+	var out0 bondgo.Output
+	var reg_a uint8
+	var reg_b uint8
+	var ch1 chan uint8
+	var ch2 chan uint8
+	out0 = bondgo.Make(bondgo.Output, 1)
+	go w1(ch1)
+	go w2(ch2)
+	for {
+		reg_a = <-ch1
+		reg_b = <-ch2
+		bondgo.IOWrite(out0, reg_a+reg_b)
+	}
+}
+`}},
+}
+
+func TestWriteKnown(t *testing.T) {
+	dir := os.Getenv("VERIF_C12_WRITE_KNOWN")
+	if dir == "" {
+		t.Skip("VERIF_C12_WRITE_KNOWN not set")
+	}
+	needTools(t)
+	t.Cleanup(CleanupWork)
+	_ = os.MkdirAll(dir, 0o755)
+	for _, k := range knownCases {
+		k.c.Strict = true
+		k.c.InVals = make([]uint64, 16)
+		out := pbt.Guard(func() pbt.Outcome { return prop(k.c) })
+		if out.Fail == nil {
+			t.Errorf("%s: does not fail (excluded=%q labels=%v)", k.file, out.Excluded, out.Labels)
+			continue
+		}
+		if out.Fail.Sig != k.sig {
+			t.Errorf("%s: signature %q, expected %q: %s", k.file, out.Fail.Sig, k.sig, out.Fail.Msg)
+		}
+		raw, _ := json.Marshal(k.c)
+		rf := pbt.ReplayFile{Property: "C12", Entry: k.entry, Failure: out.Fail, Case: raw}
+		bs, _ := json.MarshalIndent(rf, "", " ")
+		if err := os.WriteFile(dir+"/"+k.file+".json", append(bs, '\n'), 0o644); err != nil {
+			t.Fatal(err)
+		}
+		fmt.Printf("KNOWN %-40s %s\n%s\n\n", k.file, out.Fail.Sig, out.Fail.Msg)
+	}
+}
+
+// TestRefSelf pins the reference evaluator on hand-computed streams.
+func TestRefSelf(t *testing.T) {
+	src := hdr + `func f1(a0 uint8, a1 uint8) uint8 {
+	var reg_l uint8
+	reg_l = a0 * a1
+	if reg_l == 6 {
+		return 100
+	}
+	return reg_l + 1
+}
+
+func main() {
+	var out0 bondgo.Output
+	var out1 bondgo.Output
+	var in0 bondgo.Input
+	var reg_a uint8
+	var m uint8
+	out0 = bondgo.Make(bondgo.Output, 4)
+	out1 = bondgo.Make(bondgo.Output, 2)
+	in0 = bondgo.Make(bondgo.Input, 11)
+	reg_a = 250
+	for reg_i := 0; reg_i == 0; reg_i++ {
+		m = m + 3
+	}
+	switch m {
+	case 1, 3:
+		m++
+		fallthrough
+	case 9:
+		m = m * 2
+	default:
+		m = 77
+	}
+	for {
+		reg_a = reg_a + 3
+		if reg_a == 0 {
+			continue
+		}
+		bondgo.IOWrite(out0, reg_a)
+		bondgo.IOWrite(out1, f1(2, 3)+bondgo.IORead(in0)+m)
+	}
+}
+`
+	in := make([]uint64, 16)
+	in[11] = 5
+	r, err := RefEval(src, 8, in, refBudget{MaxEvals: 4000, MaxWrites: 8})
+	if err != nil {
+		t.Fatal(err)
+	}
+	want0 := []uint64{253, 3, 6, 9} // 250+3, +3 wraps to 0 (skipped by continue), then 3, 6, 9
+	_ = want0
+	got0 := r.Routines[0].Streams[0]
+	exp0 := []uint64{253, 3, 6, 9}
+	// 253, then 256 wraps to 0 -> continue, then 3, 6, 9
+	if fmt.Sprint(got0) != fmt.Sprint(exp0) {
+		t.Errorf("out0 %v, expected %v", got0, exp0)
+	}
+	got1 := r.Routines[0].Streams[1]
+	exp1 := []uint64{113, 113, 113, 113} // f1(2,3)=100, +5, +m where m=(3+1)*2=8
+	if fmt.Sprint(got1) != fmt.Sprint(exp1) {
+		t.Errorf("out1 %v, expected %v", got1, exp1)
+	}
+	if r.Routines[0].Gids[0] != 4 || r.Routines[0].Gids[1] != 2 || r.Routines[0].InGids[0] != 11 {
+		t.Errorf("ids %v %v", r.Routines[0].Gids, r.Routines[0].InGids)
 	}
 }
